@@ -20,7 +20,14 @@ func SetFloat(f float32) { mu.Lock(); f32 = f; mu.Unlock() }
 func Push(xs ...int64) { mu.Lock(); draws = append(draws, xs...); mu.Unlock() }
 
 // Reset clears all scripted state.
-func Reset() { mu.Lock(); draws = nil; f32 = 0; Calls = 0; FCalls = 0; mu.Unlock() }
+func Reset() {
+	mu.Lock()
+	draws = nil
+	f32 = 0
+	Calls = 0
+	FCalls = 0
+	mu.Unlock()
+}
 
 func Pending() int { mu.Lock(); defer mu.Unlock(); return len(draws) }
 
